@@ -240,6 +240,9 @@ HOSTILE: list[Any] = [
     "now", "today", "2020-13-45", "12345678901234567890",
     [], [1, 2, 3], ["abc"], ["a", 1, None, 2.5], [[1, 2], [3]], [None], [{}], [{"k": 1}, {"k": "x"}, {}],
     [float("nan")], [10**400], [-1, "b", [2]], ["1", "2", "x"], [{"k": [1]}, {"k": {"z": 1}}],
+    [float("inf"), float("-inf")], ["1e999999999", 1], ["NaN", "sNaN", 1], ["Infinity", "-Infinity"],
+    [{"k": "sNaN"}, {"k": "Infinity"}, {"k": "-Infinity"}], [{"k": float("inf")}, {"k": float("-inf")}],
+    "<![>", "<![foo bar]>", "<!x", "<![CDATA[", "<?x", "</", "<a b='", "&#x;", "&#99999999999;", "%zz", "%e9%",
     {}, {"a": 1}, {"size": -1, "first": None, "last": []}, {"k": {"k": {"k": 1}}},
     {"title": "x", "x": 1}, deep(60), {"a": [1, {"b": None}]},
 ]
@@ -332,6 +335,10 @@ SKELETONS = [
     "{{ a | date: b }}{{ b | date: '%Y' }}{{ 'now' | date: b }}",
     "{% assign x = a | split: b %}{{ x | join: c }}{{ x | first }}",
     "{{ a | replace: b, c }}{{ a | remove: b }}{{ a | append: b | prepend: c }}",
+    "{% assign translations = a %}{{ 'x' | t }}{% translate %}y{% endtranslate %}{{ 'p' | ngettext: 'q', b }}",
+    "{% for i in a %}{% for j in forloop %}{{ j }}{% endfor %}{% if forloop == forloop %}y{% endif %}{% if forloop == b %}n{% endif %}{{ forloop }}{{ forloop | size }}{% endfor %}",
+    "{% for i in a %}{{ forloop | first }}{{ forloop | sort }}{{ forloop | map: 'x' }}{{ forloop[b] }}{{ forloop.parentloop | json }}{% endfor %}",
+    "{% assign now = a %}{% assign today = b %}{{ now }}{{ today | date: c }}{% assign forloop = a %}{% for i in b %}{{ forloop.index }}{% endfor %}",
     # template strings (interpolated expressions) in every position that takes an expression
     "{% cycle 'x${a}', b %}{% cycle \"${b | upcase}\", 'y${c}' %}{% cycle g: 'p${b}', c %}{% cycle 'x${a}', b %}",
     "{% case 'k${a}' %}{% when 'k${b}', \"k${c}\" %}w{% else %}e{% endcase %}",
@@ -376,7 +383,8 @@ OPENERS = ["", "{{", "{{ ", "{%", "{% ", "{{ ['a']", "{% if [a]", "{{ a.b",
            "{% include 'p' ", "{% include 'p' with a", "{% render 'p' ", "{% render 'p' for a", "{% extends ",
            "{% block ", "{% translate ", "{% translate a", "{% increment ", "{% echo ", "{% unless ",
            "{% capture ", "{% for x in a ", "{% elsif ", "{% when ", "{% liquid\nassign x = ", "{% liquid\nfor x in ",
-           "{{ a | f: k", "{{ a if ", "{{ a if b else ", "{{ (a..", "{{ a | where: (x, i) => ", "{{ a", "{{ a | f: ", "{% if ", "{% for x in ",
+           "{{ a | f: k", "{{ a if ", "{{ a if b else ", "{{ (a..", "{{ a | where: (x, i) => ",
+           "{{ a | map: k: 1 =>", "{{ a | map: k: 'x' => ", "{{ a | where: (", "{{ a | map: x =", "{{ a | sort: (x) => x", "{{ a", "{{ a | f: ", "{% if ", "{% for x in ",
            "{% assign x = ", "{{ 'x", "{{ \"${", "{% liquid ", "{# ", "{% raw %}", "{{ (1..",
            "{% case a %}{% when ", "{{ a[", "{% comment %}", "{{ a | map: i => "]
 CLOSERS = ["", " }}", " %}"]
